@@ -633,9 +633,36 @@ def candidates(name, s, rng, nrand, nstruct):
         c += [("log-level", x) for x in LOG_LEVELS]
     if name == "moduleVerbosity":
         c += [("log-levels", gen_module_verbosity(rng)) for _ in range(8)]
+    c += near_default_values(s.default)
     c += structured_values(name, rng, nstruct)
     c += [rand_labelled(rng) for _ in range(nrand)]
     return c
+
+
+def near_default_values(d):
+    """Values that differ from the default by as little as the type allows: "differs from the default" must stay exact (a
+    tolerance, a case fold or a prefix test in the default detection would drop them from the short style)."""
+    import math
+
+    out = []
+    if isinstance(d, bool) or d is None:
+        return out
+    if isinstance(d, float) and math.isfinite(d):
+        out += [math.nextafter(d, math.inf), math.nextafter(d, -math.inf)]
+        if d:
+            out += [d * (1 + 1e-10), d * (1 - 1e-12), d * (1 + 1e-7), -d]
+        else:
+            out += [5e-324, 1e-12]
+    elif isinstance(d, int):
+        out += [d + 1, d - 1] + ([-d] if d else [])
+    elif isinstance(d, str):
+        out += [d + " ", d + "x", d[:-1], d.swapcase(), d.upper(), d.lower()]
+    elif isinstance(d, (list, tuple)):
+        d = list(d)
+        out += [d + d[-1:], d[:-1], d[::-1], [copy.deepcopy(d)]] if d else [[d]]
+        if d and all(isinstance(x, float) for x in d):
+            out.append([math.nextafter(x, math.inf) for x in d])
+    return [("near-default", v) for v in out if not _eq_default(v, d)]
 
 
 # ----------------------------------------------------------------------------- the round trip and its oracles
